@@ -313,6 +313,74 @@ def garbage_case(ssnet, rng):
     return log
 
 
+def bulk_case(ctx, ssnet, nframes, then_eof):
+    """Many small frames arriving in ONE read: all of them must be decoded by that handle() call (nothing
+    else will wake the receiver up if the peer then goes quiet)."""
+    frames = [(i % 65536, ssnet.CMD_TCP_DATA if i % 3 else ssnet.CMD_TCP_EOF, bytes([i % 256]) * (i % 3)) for i in range(nframes)]
+    stream = b''.join(encode(f) for f in frames)
+    p = Pair(ssnet)
+    log = CaseLog('bulk')
+    log.add(p.new())
+    log.add(p.handle('d', stream))
+    if then_eof and not p.dead:
+        log.add(p.handle('e'))
+    if p.dead or p.delivered != frames:
+        ctx.violation('C07:bulk:one-read-decodes-fewer-messages',
+                      case=dict(stream='mux-cuts', ops=list(log.ins), frames=show_frames(frames)),
+                      expected='%d frames from one read of %d bytes' % (nframes, len(stream)),
+                      observed='%d frames delivered, failed=%s' % (len(p.delivered), p.dead), kind='input')
+    log.nontrivial = True
+    return log
+
+
+def ping_during_partial_write(ctx, ssnet, rng, grant, payload_len):
+    """A PING is handled (the real got_packet queues the PONG) while a partially written frame is at the head
+    of the sender's queue: the byte stream on the wire must still decode to the frames sent, in order."""
+    r, w = ScriptedR(), ScriptedW()
+    a = ssnet.Mux(r, w)                    # real got_packet on the sending side
+    b, br, bw = make_mux(ssnet)
+    data = bytes(rng.getrandbits(8) for _ in range(payload_len))
+    sent = [(0, ssnet.CMD_PING, b'chicken'), (7, ssnet.CMD_TCP_DATA, data)]
+    a.send(7, ssnet.CMD_TCP_DATA, data)
+    w.grant = 15                            # the initial PING goes out whole
+    a.flush()
+    w.grant = grant                         # ... the DATA frame only partly
+    a.flush()
+    r.next = ('d', encode((0, ssnet.CMD_PING, b'rttest')))
+    a.handle()                              # -> got_packet(PING) -> send(PONG)
+    sent.append((0, ssnet.CMD_PONG, b'rttest'))
+    guard = 0
+    while a.outbuf and guard < 1000:
+        guard += 1
+        w.grant = rng.choice([1, 7, 64, 1 << 20])
+        a.flush()
+    ok = True
+    why = ''
+    try:
+        pos = 0
+        wire = w.written
+        while pos < len(wire):
+            k = rng.choice([1, 8, 9, 100, len(wire)])
+            br.next = ('d', wire[pos:pos + k])
+            b.handle()
+            pos += k
+    except Exception as e:  # noqa
+        ok = False
+        why = repr(e)
+    if ok and b.frames != sent:
+        ok = False
+        why = 'decoded %s' % show_frames(b.frames)[:200]
+    log = CaseLog('ping-mid-frame')
+    log.nontrivial = True
+    log.ins.append('new')
+    log.outs.append('ok out=15 full=7')
+    if not ok:
+        ctx.violation('C07:partial-write:control-frame-spliced-into-data-frame',
+                      case=dict(stream='ping-mid-frame', grant=grant, payload_len=payload_len),
+                      expected=show_frames(sent)[:200], observed=why, kind='ops')
+    return log
+
+
 def send_domain_case(ssnet):
     p = Pair(ssnet)
     log = CaseLog('send-domain')
@@ -459,6 +527,11 @@ def gen_cases(ctx):
     rng = ctx.rng
     logs = []
     logs.append(send_domain_case(ssnet))
+    for n, eof in ((129, False), (400, True), (1000, False), (3000, True)):
+        logs.append(bulk_case(ctx, ssnet, n, eof))
+    for grant in (1, 7, 8, 9, 30):
+        for plen in (0, 1, 100, 2048):
+            logs.append(ping_during_partial_write(ctx, ssnet, rng, grant, plen))
     # exhaustive cut patterns of short streams
     f1 = (258, ssnet.CMD_TCP_DATA, b'\x53\x53\x00\x01')           # payload looks like magic
     s1 = encode(f1)                                               # 12 bytes
@@ -547,7 +620,7 @@ def run(ctx):
         ctx.count()
         ctx.hist(lg.kind)
         ctx.mark(lg.ins, lg.nontrivial)
-    for kind in ('pipe', 'cuts', 'garbage', 'handshake', 'send-domain'):
+    for kind in ('pipe', 'cuts', 'garbage', 'handshake', 'send-domain', 'bulk', 'ping-mid-frame'):
         for lg in logs:
             if lg.kind == kind:
                 ctx.sample(dict(kind=kind, input=[l[:120] for l in lg.ins[:8]], real_code_output=[l[:120] for l in lg.outs[:8]]))
@@ -558,6 +631,11 @@ def run(ctx):
 def replay(ctx, rep):
     ssnet, client, helpers = _mods()
     case = rep['case']
+    if case.get('stream') == 'ping-mid-frame':
+        import random
+        c2 = type(ctx)(ctx.prop_id, 'quick', 0)
+        ping_during_partial_write(c2, ssnet, random.Random(0), case['grant'], case['payload_len'])
+        return bool(c2.violations), (c2.violations[0]['observed'] if c2.violations else 'stream decodes to the frames sent')
     if case.get('stream') == 'handshake':
         chunks = [common.unhex(c) for c in case['chunks']]
         kind, val = run_handshake(chunks)
